@@ -81,7 +81,9 @@ PROPS = {
     ),
     'C15': dict(
         harness='brokertrace', syn=True, args=['-prop', 'C15'], shards=dict(quick=8, thorough=16),
-        rule='2-5 clients publishing numbered messages at all QoS to overlapping topics, windows 1-10, drops/resumes with unacknowledged messages; order monitor per (publisher, QoS) at every receiver, resend order through the model; distinct = distinct traces',
+        also=[dict(harness='servicetrace', syn=True, args=['-prop', 'C17'], shards=dict(quick=4, thorough=8)),
+              dict(harness='clienttrace', syn=True, args=['-prop', 'C10'], shards=dict(quick=4, thorough=8))],
+        rule='2-5 clients publishing numbered messages at all QoS to overlapping topics, windows 1-10, drops/resumes with unacknowledged messages; order monitor per (publisher, QoS) at every receiver, resend order through the model; client-library clauses: the servicetrace (command order) and clienttrace (callback arrival order) harnesses run as well; distinct = distinct traces',
         assumptions=['scripted peers at quiescence granularity inside a testing/synctest bubble (go1.26): one stimulus, then every goroutine of the broker durably blocked, then the next',
                      'not modelled: a publish blocking on the full queue of another online client, a processor blocked on an exhausted publish/subscribe token (the generators stay inside; the model answers unsupported otherwise)'],
     ),
